@@ -25,6 +25,11 @@ CONFIGS = [
     # unmet unless called twice; m2 with explicit default-impl response
     [{"kind": "call", "mid": 0, "opener": "each", "pat": {"matcher": 255, "dbg": 1, "ops": [("ret", 1), ("n", 2)]}},
      {"kind": "call", "mid": 2, "opener": "each", "pat": {"matcher": 255, "dbg": 2, "ops": [("dfl",)]}}],
+    # recorded errors of every responder-made kind: m0 answers with panics(), m1 with applies_unmocked() although it has no real
+    # function; m2 is satisfied by one call (report() must say FAILURE exactly when an error was recorded or a count is unmet)
+    [{"kind": "call", "mid": 0, "opener": "each", "pat": {"matcher": 255, "dbg": 1, "ops": [("pan", 3)]}},
+     {"kind": "call", "mid": 1, "opener": "each", "pat": {"matcher": 255, "dbg": 2, "ops": [("unm",)]}},
+     {"kind": "call", "mid": 2, "opener": "each", "pat": {"matcher": 255, "dbg": 3, "ops": [("ret", 4), ("al", 1)]}}],
 ]
 
 
@@ -107,6 +112,11 @@ def gen_cases(rng, tier):
     for L in range(1, maxlen + 1):
         for seq in itertools.product(alpha, repeat=L):
             out.append({"partial": False, "terms": CONFIGS[len(out) % len(CONFIGS)], "events": with_counts(list(seq)), "_kind": f"exh{L}"})
+    # three-step sequences that the quick tier's exhaustive part (length 2) does not reach: no_verify_in_drop on the original, a clone of it,
+    # then verify / no_verify_in_drop / drop / report through the clone or the original
+    for first in (ev("nvid", 0), ev("call", 0, 0, 1), ev("lend", 0)):
+        for last in alpha:
+            out.append({"partial": False, "terms": CONFIGS[len(out) % len(CONFIGS)], "events": with_counts([first, ev("clone", 0), last]), "_kind": "dir3"})
     for _ in range(700 if tier == "quick" else 6000):
         out.append({"partial": rng.random() < 0.3, "terms": rng.choice(CONFIGS), "events": with_counts(random_seq(rng, rng.randint(3, 14))),
                     "_kind": "random"})
